@@ -301,7 +301,9 @@ def explore_backbone(ctx: common.Ctx, kind: str, n_jobs: int, opts: dict, procs:
         op = 'cvc'
         lines, idx = [], []
         for i, r in enumerate(done):
-            if r['real_set'] != r['S'] and op in r:
+            # the classification set is cubic in the number of combinations: small cases only
+            nv = len([x for x in r[op][3].split(';') if x]) if op in r else 0
+            if r['real_set'] != r['S'] and op in r and nv <= 3:
                 a = list(r[op])
                 a[1] = 'cvcm'
                 lines.append('\t'.join(a + [r['deny'], r['canon']]))
